@@ -158,6 +158,11 @@ def execute(
             with ctx.Pool(procs, initializer=_init_worker, initargs=((worker_mod, worker_fn), scratch)) as pool:
                 for r in pool.imap_unordered(_run_chunk, chunks):
                     total.merge(r)
+                    if os.environ.get("VERIF_STOP_AT_FIRST_VIOLATION") and len(total.violations) >= 20:
+                        # seed evaluation only (tools/eval_seed.py): the verdict is known, skip the rest of the space
+                        total.count("stopped_early_for_seed_evaluation")
+                        pool.terminate()
+                        break
     finally:
         shutil.rmtree(scratch, ignore_errors=True)
     total.violations.sort(key=lambda v: json.dumps(v, sort_keys=True, default=str))
